@@ -17,6 +17,8 @@ use tracing::debug;
 pub struct SystemState {
     pub streams: AHashMap<u32, StreamState>,
     pub users: AHashMap<u32, UserState>,
+    /// The last user ID that was assigned while replaying the state (also if that user was deleted later on).
+    pub current_user_id: u32,
 }
 
 #[derive(Debug)]
@@ -375,7 +377,11 @@ impl SystemState {
             }
         }
 
-        let state = SystemState { streams, users };
+        let state = SystemState {
+            streams,
+            users,
+            current_user_id,
+        };
         debug!("+++ State +++");
         debug!("{state}");
         debug!("+++ State +++");
